@@ -42,7 +42,7 @@ pub assume_specification<T, P: FnOnce(&T) -> bool>[ Option::<T>::filter ](o: Opt
         o is None ==> r is None,
         o matches Some(x) ==> (exists|b: bool| p.ensures((&x,), b) && r == (if b { Option::Some(x) } else { Option::None }));
 
-pub assume_specification<T, E, F: FnOnce(E) -> T>[ Result::<T, E>::unwrap_or_else ](res: Result<T, E>, f: F) -> (r: T)
+pub assume_specification<T, E, F: FnOnce(E) -> T>[ core::result::Result::<T, E>::unwrap_or_else ](res: core::result::Result<T, E>, f: F) -> (r: T)
     requires res matches Err(e) ==> f.requires((e,)),
     ensures
         res matches Ok(v) ==> r == v,
